@@ -14,7 +14,7 @@ import numpy as np
 import z3
 
 from .core import OutsideSubset
-from .pyvc import (Sym, SList, SDict, SObj, SArr, SBuf, DType, IRaise, IFunc, IBound,
+from .pyvc import (Sym, SList, SGList, SDict, SObj, SArr, SBuf, DType, IRaise, IFunc, IBound,
                    Summary, MISSING, is_sym, is_scalar, num_expr, bool_expr, int_expr,
                    simp_int, compare, arith, fresh, ite, _same, _b, _simp_bool,
                    SQRT, EXP, LOG, SIN, COS, ERF, J0, GAMMALN, ARCSIN, ARCTAN, PI)
@@ -758,13 +758,43 @@ def builtin_isinstance(interp, args, kw):
     return False
 
 
+def guarded_items(view):
+    return [(p, {"items": (k, v), "keys": k, "values": v}[view.what])
+            for k, (p, v) in view.d.entries.items() if p is not False]
+
+
 def builtin_list(interp, args, kw):
     if not args:
         return interp.new_list()
     a = args[0]
+    if isinstance(a, SDict):
+        a = DictView(a, "keys")
     if isinstance(a, DictView):
-        return interp.new_list(dictview_items(interp, a))
+        items = guarded_items(a)
+        if all(p is True for p, _ in items):
+            return interp.new_list([x for _, x in items])
+        return SGList(items)       # snapshot with symbolic presence
+    if isinstance(a, SGList):
+        return a
     return interp.new_list(interp.iterate(a))
+
+
+def builtin_sorted(interp, args, kw):
+    a = args[0]
+    if isinstance(a, (SDict, DictView, SGList)):
+        a = builtin_list(interp, [a], {})
+        if isinstance(a, SGList):
+            # order of a guarded snapshot does not matter to the contracts
+            return a
+    items = interp.iterate(a)
+    if any(is_sym(x) for x in items):
+        raise OutsideSubset("sorted() of symbolic values")
+    key = kw.get("key")
+    if key is not None:
+        ks = [interp.call(key, [x]) for x in items]
+        order = sorted(range(len(items)), key=lambda i: ks[i], reverse=bool(kw.get("reverse")))
+        return interp.new_list([items[i] for i in order])
+    return interp.new_list(sorted(items, reverse=bool(kw.get("reverse"))))
 
 
 def builtin_tuple(interp, args, kw):
@@ -789,6 +819,24 @@ def dictview_items(interp, view):
 def builtin_dict(interp, args, kw):
     d = interp.new_dict()
     for a in args:
+        if isinstance(a, SGList):
+            for p, kv in a.items:
+                k, v = kv
+                if is_sym(k):
+                    raise OutsideSubset("symbolic dict key")
+                if p is True:
+                    d.entries[k] = (True, v)
+                    continue
+                old = d.entries.get(k, (False, None))
+                if old[0] is False:
+                    d.entries[k] = (p, v)
+                else:
+                    d.entries[k] = (_simp_bool(z3.Or(_b(old[0]), p)),
+                                    interp._merge_value(p, v, old[1], None))
+            continue
+        if isinstance(a, DictView):
+            a = builtin_list(interp, [a], {})
+            return builtin_dict(interp, [a], kw)
         interp.dict_update(d, a)
     for k, v in kw.items():
         d.entries[k] = (True, v)
@@ -1016,6 +1064,7 @@ def install(interp):
     m[hasattr] = builtin_hasattr
     m[isinstance] = builtin_isinstance
     m[list] = builtin_list
+    m[sorted] = builtin_sorted
     m[tuple] = builtin_tuple
     m[dict] = builtin_dict
     m[enumerate] = builtin_enumerate
